@@ -86,6 +86,12 @@ def summarise(prog, limit=60000):
         return e.k == "call" and e.a[0].endswith("unwrap_or_default") and nth is not None and is_const(strip_refs(nth.a[1][1]), "int", 1) \
             and contains_call(e, lambda n: n.endswith("::rev")) is not None and any(self_path(x) == (buf,) for x in e.walk())
 
+    def is_third_last(e):
+        e = strip_refs(e)
+        nth = contains_call(e, lambda n: n.endswith("::nth"))
+        return e.k == "call" and e.a[0].endswith("unwrap_or_default") and nth is not None and is_const(strip_refs(nth.a[1][1]), "int", 2) \
+            and contains_call(e, lambda n: n.endswith("::rev")) is not None and any(self_path(x) == (buf,) for x in e.walk())
+
     def is_popped(e):
         e = strip_refs(e)
         return contains_call(e, lambda n: n.endswith("String::pop")) is not None
@@ -161,7 +167,13 @@ def summarise(prog, limit=60000):
                 if is_rmc(o[0]):
                     return ("rmc_eq", cv), v
                 if is_second_last(o[0]):
+                    if wrote_buf:
+                        s.tainted = True
                     return ("second_last_eq", cv), v
+                if is_third_last(o[0]):
+                    if wrote_buf:
+                        s.tainted = True
+                    return ("third_last_eq", cv), v
                 if o[0].k == "call" and o[0].a[0].endswith("::count") and any(is_value(x) for x in o[0].walk()):
                     return ("value_count_eq", cv), v
         if ty == "char":
